@@ -42,6 +42,8 @@ Helpers
     diff(a, b, rtol, atol, ignore=(...), renumber=None) -> list of (path, va, vb) differences, numbers compared as doubles
     inventory(entities, phases, keys=None, weights=None) -> Inventory(elements, charge, amounts, negatives)
     entity_inventory(entity, phases) -> (elements dict, charge, amounts list)
+    implied_dl_water(entity)   -> kg of diffuse-layer water a never-used SURFACE definition owns (manual eq. 76) although its
+                                  dump shows -mass_water 0
     reaction_stoich(entity, phases) -> elements added per mole of REACTION progress (phase names resolved through
                                   `phases`: dict phase -> formula text, e.g. inv_util.phase_formulas("phreeqc.dat"))
 
@@ -61,7 +63,7 @@ from . import formula as F
 from . import inv_util as U
 
 __all__ = ["parse", "nv", "nums", "mix_fractions", "kinds", "select", "canonical", "diff", "inventory",
-           "entity_inventory", "reaction_stoich", "Inventory", "RawParseError"]
+           "entity_inventory", "reaction_stoich", "implied_dl_water", "Inventory", "RawParseError"]
 
 
 class RawParseError(ValueError):
@@ -400,6 +402,28 @@ def reaction_stoich(ent, phases):
     for name, coef in nv(ent.get("reactant_list")).items():
         F.add(out, U.formula_elements(name, phases), coef)
     return out
+
+
+def implied_dl_water(ent):
+    """kg of diffuse-layer water that a SURFACE *definition* carries without listing it in the dump.
+
+    Manual (1999, eq. 75-76): a surface with an explicit diffuse layer (-diffuse_layer / -donnan) of constant thickness t
+    owns the water W_s = A_surf * t (1 L = 1 kg), A_surf = specific area x grams; it is "the mass of water in the diffuse
+    layer of surface s", in addition to the water of the solution.  The dump of a definition that has never been used
+    (neither -equilibrate nor a reaction) still shows `-mass_water 0` for its charge components; the engine fills W_s in
+    at the first calculation.  Returns the sum of A*t*1000 over the charge components whose -mass_water is 0; 0.0 for
+    surfaces without explicit diffuse layer, for initialised surfaces, and for -donnan debye_lengths (variable thickness:
+    that water is taken out of the solution, nothing is implied)."""
+    if ent.get("_kind") != "SURFACE":
+        return 0.0
+    if float(ent.get("dl_type") or 0.0) == 0.0 or float(ent.get("debye_lengths") or 0.0) > 0.0:
+        return 0.0
+    t = float(ent.get("thickness") or 0.0)
+    w = 0.0
+    for c in (ent.get("charge_component") or {}).values():
+        if float(c.get("mass_water") or 0.0) == 0.0:
+            w += float(c.get("specific_area") or 0.0) * float(c.get("grams") or 0.0) * t * 1000.0
+    return w
 
 
 def entity_inventory(ent, phases):
